@@ -326,7 +326,7 @@ theorem cmpBuild_buildStr (x y : SemVer) (hx : x.wf = true) (hy : y.wf = true) :
 theorem semver_spec (x y : SemVer) (hx : x.wf = true) (hy : y.wf = true) :
     compareStr .semver x.render y.render = .ofOrd (specCmp x y) := by
   show semverFam.compareStr x.render y.render = _
-  simp only [Family.compareStr, Family.cmpParsed, semverFam, CRes.toOutcome, parse_render]
+  simp only [Family.compareStr, Family.cmpParsed, semverFam_parse, semverFam_cmp, CRes.toOutcome, parse_render]
   congr 1
   unfold cmpSemver specCmp
   simp only [compsCmp_three, cmpBuild_buildStr x y hx hy]
